@@ -306,6 +306,11 @@ def finish_cuts(ctx, res) -> None:
         {"name": "buffer_of_one_expired", "n": 4, "expired": (2,), "max": 1},
         {"name": "slow_wire", "n": 3, "expired": (), "max": 5, "latency": 4},
         {"name": "slow_wire_expired", "n": 3, "expired": (1,), "max": 2, "latency": 3},
+        # the other priorities are polled one POLLING_WAIT after the other: the cut points follow the instant of each poll
+        {"name": "priorities@0.1", "n": 3, "expired": (), "max": 5, "prios": {1: 9, 2: 0, 3: 5}, "at": 0.1},
+        {"name": "priorities@0.3", "n": 3, "expired": (), "max": 5, "prios": {1: 9, 2: 0, 3: 5}, "at": 0.3},
+        {"name": "priorities@0.2", "n": 3, "expired": (), "max": 5, "prios": {1: 0, 2: 9}, "at": 0.2},
+        {"name": "priorities_slow_wire@0.1", "n": 2, "expired": (), "max": 1, "latency": 2, "prios": {1: 0, 2: 9}, "at": 0.1},
     ]
     ks = range(0, ctx.scale(70, 160))
     ks_slow = range(0, ctx.scale(150, 320))
@@ -316,15 +321,17 @@ def finish_cuts(ctx, res) -> None:
     async def main(loop):
         loop.set_exception_handler(lambda l, c: None)
         for sc in scenarios:
-            for k in (ks_slow if sc.get("latency") else ks):
+            for k in (range(0, 60) if sc.get("at") else ks_slow if sc.get("latency") else ks):
                 w = redisrun.RedisWorld([1])
                 w.srv.latency = sc.get("latency", 0)
                 now = CLOCK.now_us()
                 for i in range(1, sc["n"] + 1):
                     exp = i in sc["expired"]
-                    await w.mb.enqueue(key(f"m{i}", "t1", "q1", 5), f"p{i}",
+                    await w.mb.enqueue(key(f"m{i}", "t1", "q1", sc.get("prios", {}).get(i, 5)), f"p{i}",
                                        mk_params(ts=now - (2 * S if exp else 0), ttl=(1000 if exp else None)))
                 await w.add_consumer(1, 1, 0, None, sc["max"])
+                if sc.get("at"):
+                    await asyncio.sleep(sc["at"])
                 for _ in range(k):
                     await asyncio.sleep(0)
                 await w.consumers[1].finish()
@@ -332,8 +339,15 @@ def finish_cuts(ctx, res) -> None:
                     await asyncio.sleep(0)
                 pl = w.places()
                 res.count("redis_finish_cut_runs")
+                data = w.hashes()
                 bad = {i: [x[0] for x in pl.get(i, [])] for i in range(1, sc["n"] + 1)
                        if len(pl.get(i, [])) != 1 or pl[i][0][0] == "processing"}
+                # ... under its own priority, and its data is where the name points (a name without data is dead-lettered by
+                # the next consumer that finds it)
+                for i in range(1, sc["n"] + 1):
+                    want = sc.get("prios", {}).get(i, 5)
+                    if i not in bad and (pl[i][0][2] != want or i not in data or data[i]["prio"] != want):
+                        bad[i] = [f"{pl[i][0][0]} at priority {pl[i][0][2]}, data at priority {data.get(i, {}).get('prio')}, enqueued with {want}"]
                 res.add_case(f"redis_finish_cut:{sc['name']}:{k}:{sorted((i, tuple(x[0] for x in p)) for i, p in pl.items())}",
                              any(p and p[0][0] in ("dead",) for p in pl.values()) or k > 5)
                 if bad:
